@@ -288,7 +288,7 @@ var (
 func TestC20(t *testing.T) {
 	rec := ev.Get("C20")
 	rec.Rule("state machine over a fake Cloudflare v4 API (zones lookup, paged dns_records with result_info as the real API reports it - count = items on this page -, PATCH; failures HTTP 403/404, success:false, and 500 in the thorough tier): 1..3 zones with 0..60 HTTPS records whose value is a generated SvcParams string (alpn, no-default-alpn, port, hints, unknown keys, with/without one ech, quoted/unquoted, any position) plus non-HTTPS records; actions publish(targets drawn from existing / missing / duplicate / unknown-zone names, config list fresh or repeated), edit the zone, switch a failure on/off. Model = copy of the store. Oracle after every publish: one result per target in order with the predicted status class; for every record: requested+existing+no failure -> tokens(value) == tokens(old value without ech) + exactly one ech == base64(list), priority/target kept; otherwise byte-for-byte unchanged; PATCH requests == distinct records whose value was not current; no request touches another record. distinct = (zone shape, target-list shape, failure set); non-trivial = at least one existing target")
-	rec.Mandatory("record_on_page_ge2", "duplicate_target", "existing_ech_replaced", "value_already_current", "failure_one_zone_only", "unknown_zone", "missing_record", "patch_failure")
+	rec.Mandatory("failure_then_recovery_scripted", "record_on_page_ge2", "duplicate_target", "existing_ech_replaced", "value_already_current", "failure_one_zone_only", "unknown_zone", "missing_record", "patch_failure")
 	thorough := false
 	rapid.Check(t, func(t *rapid.T) {
 		cfAPIOnce.Do(func() {
@@ -333,16 +333,45 @@ func TestC20(t *testing.T) {
 		zoneIDKnown := map[string]bool{}
 		nops := rapid.IntRange(1, 6).Draw(t, "nops")
 		nontrivial := false
+		// scripted prefix (one case in three): a lookup/listing failure for a zone that the
+		// publisher has never seen, a publish into that zone, recovery, and a publish again
+		var script []int
+		forceZone := -1
+		if rapid.IntRange(0, 2).Draw(t, "scripted") == 0 {
+			forceZone = rapid.IntRange(0, len(api.zones)-1).Draw(t, "script_zone")
+			key := []string{"zones:", "list:"}[rapid.IntRange(0, 1).Draw(t, "script_fail")] + api.zones[forceZone].Name
+			api.fail[key] = []string{"http403", "http404", "notsuccess"}[rapid.IntRange(0, 2).Draw(t, "script_kind")]
+			ops = append(ops, "fail_on:"+key+"="+api.fail[key])
+			script = []int{0, 6, 0} // publish, clear failures, publish
+			nops += 3
+			cl = append(cl, "failure_then_recovery_scripted")
+		}
 		for op := 0; op < nops; op++ {
-			switch k := rapid.IntRange(0, 5).Draw(t, "op"); {
+			k := -1
+			if len(script) > 0 {
+				k, script = script[0], script[1:]
+			} else {
+				forceZone = -1
+				k = rapid.IntRange(0, 5).Draw(t, "op")
+			}
+			switch {
+			case k == 6: // all failures off
+				api.fail = map[string]string{}
+				ops = append(ops, "fail_off:all")
 			case k <= 2: // publish
 				list := lists[rapid.IntRange(0, 1).Draw(t, "whichlist")]
 				b64 := base64.StdEncoding.EncodeToString(list)
 				nt := rapid.IntRange(0, 6).Draw(t, "ntargets")
+				if forceZone >= 0 && nt == 0 {
+					nt = 1
+				}
 				var targets []publish.Target
 				var shape []string
 				for i := 0; i < nt; i++ {
 					z := api.zones[rapid.IntRange(0, len(api.zones)-1).Draw(t, "tz")]
+					if forceZone >= 0 && i == 0 {
+						z = api.zones[forceZone]
+					}
 					var https []*cfRecord
 					for _, r := range z.Records {
 						if r.Type == "HTTPS" {
@@ -370,7 +399,10 @@ func TestC20(t *testing.T) {
 					}
 				}
 				// model prediction
-				type snap struct{ value, target string; prio int }
+				type snap struct {
+					value, target string
+					prio          int
+				}
 				before := map[string]snap{}
 				byName := map[string]*cfRecord{}
 				for _, z := range api.zones {
@@ -390,7 +422,7 @@ func TestC20(t *testing.T) {
 				want := make([][]publish.StatusCode, len(targets))
 				expectPatch := map[string]bool{}
 				expectValue := map[string]string{} // record id -> b64 expected ech
-				current := map[string]string{}      // model of the stored ech per record during this publish
+				current := map[string]string{}     // model of the stored ech per record during this publish
 				zoneFailed := map[string]bool{}
 				seenTarget := map[string]bool{}
 				for i, tg := range targets {
